@@ -1,3 +1,4 @@
+import LibconfigModel.Generated.Constants
 import LibconfigModel.WF
 import LibconfigModel.Step
 import LibconfigModel.Proofs.C04
@@ -53,5 +54,12 @@ def sample : Config :=
           { ty := T_GROUP, kids := [{ name := some [100], ty := T_BOOL, ival := 1 }] }] } ] } }
 
 example : sample.WF := (C04_wfb_iff sample).mp (by decide)
+
+/-- Bridge: the type codes the model uses are the ones of lib/libconfig.h as evaluated by the C
+compiler on this run. -/
+theorem C04_type_codes :
+    Generated.CONFIG_TYPE_NONE = T_NONE ∧ Generated.CONFIG_TYPE_GROUP = T_GROUP ∧ Generated.CONFIG_TYPE_INT = T_INT ∧
+    Generated.CONFIG_TYPE_INT64 = T_INT64 ∧ Generated.CONFIG_TYPE_FLOAT = T_FLOAT ∧ Generated.CONFIG_TYPE_STRING = T_STRING ∧
+    Generated.CONFIG_TYPE_BOOL = T_BOOL ∧ Generated.CONFIG_TYPE_ARRAY = T_ARRAY ∧ Generated.CONFIG_TYPE_LIST = T_LIST := by decide
 
 end Libconfig.C04
